@@ -209,7 +209,33 @@ func observeCustom(q, spec string) []string {
 		s, err := b.Render(e)
 		return "x" + hx(s) + errflag(err)
 	})
-	return []string{showExpr(e), res, strings.Join(trace, " "), driverIsolation()}
+	return []string{showExpr(e), res, strings.Join(trace, " "), driverIsolation(), customOperator()}
+}
+
+// expr.Operator is an open integer type and the function table a map over it: a program may register a function for an operator
+// of its own. Render must call it like any other - once, with the rendered operands.
+func customOperator() string {
+	return guard(func() string {
+		const mine = expr.Operator(100)
+		calls := 0
+		fns := map[expr.Operator]driver.RenderFN{}
+		for op, fn := range driver.Shared {
+			fns[op] = fn
+		}
+		fns[mine] = func(l, r string) (string, error) { calls++; return "mine<" + l + "|" + r + ">", nil }
+		b := driver.Base{RenderFNs: fns}
+		e := &expr.Expression{Left: expr.Lit(expr.Column("a")), Op: mine, Right: expr.Lit(5)}
+		s, err := b.Render(e)
+		if err != nil || calls != 1 || s != `mine<"a"|5>` {
+			return fmt.Sprintf("CUSTOM-OPERATOR:render=%q err=%v calls=%d", s, err, calls)
+		}
+		calls = 0
+		s2, ps, err2 := b.RenderParam(e)
+		if err2 != nil || calls != 1 || !strings.HasPrefix(s2, "mine<") || len(ps) != 1 {
+			return fmt.Sprintf("CUSTOM-OPERATOR:renderparam=%q params=%v err=%v calls=%d", s2, ps, err2, calls)
+		}
+		return "ok"
+	})
 }
 
 // two drivers must not share state: editing one postgres driver's function table (registering a function for FUZZY,
